@@ -929,7 +929,11 @@ def tables_ok_check(ctx, defs):
     ok = v is not None and v.strip().startswith("true")
     ctx.obligation("tables:tables_ok(live vc2_data_tables)", ok, "corr-shard",
                    "the hypothesis of C02_headers_total evaluated on the dumped live tables: %r" % v)
-    return ok
+    v2 = ctx.coq_eval("hdr_consts_ok", IMPORTS + ["Proofs.HeadersBridge"], "consts_ok TT", defs=defs)
+    ok2 = v2 is not None and v2.strip().startswith("true")
+    ctx.obligation("tables:consts_ok(live enums = the literals of Gen/VideoParams.v)", ok2, "corr-shard",
+                   "the hypothesis of C02_coding_parameters_match_source evaluated on the dumped live tables: %r" % v2)
+    return ok and ok2
 
 
 def judge(ctx, cases, bad, tag):
